@@ -10,6 +10,8 @@ import EaselModel.Miniapps.Alimask
 import EaselModel.Miniapps.Alimanip
 import EaselModel.Miniapps.Afetch
 import EaselModel.Miniapps.AlistatInfo
+import EaselModel.Miniapps.Compstruct
+import EaselModel.Miniapps.StoTools
 /-! # C13 — command-line front end of the reference functions: `runTool tool argv files` = predicted stdout -/
 namespace EaselModel.Miniapps
 
@@ -28,6 +30,10 @@ def parseArgs (noArg withArg : List String) : List String → Parsed → Option 
       if !p.pos.isEmpty then none else
       match rest with
       | v :: rest' =>
+        -- esl_getopts: "Arg looks like option?" for a string/file-typed value that starts with '-'; a numeric-typed option takes a
+        -- negative number (the table's types are not known here: a value that starts with '-' passes only if it reads as a number)
+        -- (a lone "-" passes too: character-typed options such as `esl-mask -m -`; string-typed ones are checked by their tool's front end)
+        if v.startsWith "-" && v.length > 1 && !((v.toList.drop 1).all fun c => c.isDigit || c == '.') then none else
         if (p.vals.map (·.1)).contains a then none else parseArgs noArg withArg rest' { p with vals := (a, v) :: p.vals }
       | [] => none
     else if a.startsWith "-" && a.length > 1 && !(a.toList.drop 1).all Char.isDigit then none
@@ -74,9 +80,32 @@ def fmtIs (p : Parsed) (k v : String) : Bool :=
   | some f => f == v
   | none => false
 
+/-- the three views of the alphabet flag: C13's characters, C03's reader configuration, C15's tables -/
+def abc3Of (p : Parsed) : Option (Abc × EaselModel.Msafile.Abc × EaselModel.Msa.Abc) :=
+  match p.has "--dna", p.has "--rna", p.has "--amino" with
+  | true, false, false => some (.dna, EaselModel.Msafile.abcDna, EaselModel.Msa.Gen.dnaAbc)
+  | false, true, false => some (.rna, EaselModel.Msafile.abcRna, EaselModel.Msa.Gen.rnaAbc)
+  | false, false, true => some (.amino, EaselModel.Msafile.abcAmino, EaselModel.Msa.Gen.aminoAbc)
+  | _, _, _ => none
+
+def msaFormats : List String := ["stockholm", "pfam", "a2m", "afa", "psiblast", "clustal", "clustallike", "selex", "phylip", "phylips"]
+
+def c2b (c : List Char) : List UInt8 := c.map fun x => UInt8.ofNat x.toNat
+def b2s (b : List UInt8) : String := String.ofList (b.map fun x => Char.ofNat x.toNat)
+
+def isSto (f : String) : Bool := f == "stockholm" || f == "pfam"
+
 /-- esl-alirev --informat afa (--dna|--rna) <afa> -/
 def runAlirev (argv : List String) (files : String → Option (List Char)) : Option String := do
   let p ← parseArgs ["--dna", "--rna"] ["--informat", "--outformat"] argv {}
+  if isSto ((p.val? "--informat").getD "") then
+    -- every alignment of a Stockholm / Pfam file: C15 ReverseComplement, then the C03 writer of the requested (default: input) format
+    let infmt := (p.val? "--informat").getD ""
+    let outfmt := (p.val? "--outformat").getD infmt
+    if !msaFormats.contains outfmt then none
+    let (_, fa, ta) ← abc3Of p
+    let [fn] := p.pos | none
+    return ← (Ali.alirevSto fa ta infmt outfmt (c2b (← files fn))).map b2s
   if !fmtIs p "--informat" "afa" then none
   match p.val? "--outformat" with
   | some f => if f != "afa" then none
@@ -90,6 +119,10 @@ def runAlirev (argv : List String) (files : String → Option (List Char)) : Opt
 /-- esl-alipid --informat afa (--dna|--rna|--amino) [--noheader] <afa> -/
 def runAlipid (argv : List String) (files : String → Option (List Char)) : Option String := do
   let p ← parseArgs ["--dna", "--rna", "--amino", "--noheader"] ["--informat"] argv {}
+  if isSto ((p.val? "--informat").getD "") then
+    let (a, fa, _) ← abc3Of p
+    let [fn] := p.pos | none
+    return ← Ali.alipidSto a fa (!p.has "--noheader") ((p.val? "--informat").getD "") (c2b (← files fn))
   if !fmtIs p "--informat" "afa" then none
   let a ← abcOf p
   let [fn] := p.pos | none
@@ -169,10 +202,6 @@ def runMask (argv : List String) (files : String → Option (List Char)) : Optio
     some { r with seq := maskSeq o (a - 1) (b - 1) r.seq }
   some (String.ofList (renderFasta 60 outs))
 
-def msaFormats : List String := ["stockholm", "pfam", "a2m", "afa", "psiblast", "clustal", "clustallike", "selex", "phylip", "phylips"]
-
-def c2b (c : List Char) : List UInt8 := c.map fun x => UInt8.ofNat x.toNat
-def b2s (b : List UInt8) : String := String.ofList (b.map fun x => Char.ofNat x.toNat)
 
 /-- alignment file in, alignment file out: the C03 readers/writers and C15 column operations composed (`ReformatMsa.lean`) -/
 def runReformatMsa (p : Parsed) (infmt outfmt : String) (src : List Char) : Option String := do
@@ -202,12 +231,20 @@ def runReformatMsa (p : Parsed) (infmt outfmt : String) (src : List Char) : Opti
     --namelen n] --informat <fmt> <fmt> <file> -/
 def runReformat (argv : List String) (files : String → Option (List Char)) : Option String := do
   let p ← parseArgs ["-d", "-l", "-n", "-r", "-u", "-x", "--mingap", "--nogap", "--keeprf", "--wussify", "--dewuss", "--fullwuss"]
-    ["--gapsym", "--informat", "--rename", "--replace", "--namelen"] argv {}
+    ["--gapsym", "--informat", "--rename", "--replace", "--namelen", "--ignore", "--acceptx"] argv {}
   let infmt ← p.val? "--informat"
+  -- `--ignore s` / `--acceptx s` edit the input map of the SEQUENCE reader: alignment output refuses them, an alignment file read
+  -- for unaligned output never consults that map, a FASTA file drops the ignored characters and reads the accepted ones as X
+  let ignore := ((p.val? "--ignore").getD "").toList
+  let acceptx := ((p.val? "--acceptx").getD "").toList
+  let mapEdited := (p.val? "--ignore").isSome || (p.val? "--acceptx").isSome
+  if (ignore ++ acceptx).any (fun c => c.toNat ≥ 127 || c.toNat ≤ 32 || c == '>') then none
+  if ["--ignore", "--acceptx", "--rename", "--replace", "--gapsym"].any (fun k => ((p.val? k).getD "").startsWith "-") then none
   if p.has "--mingap" && p.has "--nogap" then none
   if (p.has "--mingap" || p.has "--nogap") && (p.val? "--gapsym").isSome then none
   let [outfmt, fn] := p.pos | none
   if (p.has "-d" && p.has "-r") || (p.has "-l" && p.has "-u") || (p.has "-n" && p.has "-x") then none
+  if msaFormats.contains outfmt && mapEdited then none
   if msaFormats.contains outfmt && msaFormats.contains infmt then
     match runReformatMsa p infmt outfmt (← files fn) with
     | some out => return out
@@ -247,6 +284,9 @@ def runReformat (argv : List String) (files : String → Option (List Char)) : O
   let o : ReformatOpts := { replace := repl, lower := p.has "-l", upper := p.has "-u", rna := p.has "-r", dna := p.has "-d",
                             iupacN := p.has "-n", xbad := p.has "-x", gapsym := gapsym, rename := (p.val? "--rename").map String.toList }
   let recs := parseFasta (← files fn)
+  if mapEdited && (outfmt != "fasta" || infmt != "fasta") then none
+  let recs := if mapEdited then recs.map (fun r => { r with seq := r.seq.filterMap (fun c =>
+      if acceptx.contains c then some 'X' else if ignore.contains c then none else some c) }) else recs
   if recs.isEmpty || !namesDistinct recs then none
   if recs.any (fun r => r.seq.isEmpty) then none
   match outfmt, infmt with
@@ -330,6 +370,19 @@ def runShuffle (argv : List String) (files : String → Option (List Char)) : Op
 /-- esl-weight [-g | -p | -b [--id x]] --informat afa (--dna|--rna|--amino) <afa> -/
 def runWeight (argv : List String) (files : String → Option (List Char)) : Option String := do
   let p ← parseArgs ["--dna", "--rna", "--amino", "-g", "-p", "-b", "-f"] ["--informat", "--id", "--idf"] argv {}
+  if isSto ((p.val? "--informat").getD "") then
+    let infmt := (p.val? "--informat").getD ""
+    let (a, fa, ta) ← abc3Of p
+    let nalg := (if p.has "-g" then 1 else 0) + (if p.has "-p" then 1 else 0) + (if p.has "-b" then 1 else 0) + (if p.has "-f" then 1 else 0)
+    if nalg > 1 || ((p.val? "--idf").isSome && !p.has "-f") || ((p.val? "--id").isSome && !p.has "-b") then none
+    let [fn] := p.pos | none
+    let src := c2b (← files fn)
+    if p.has "-f" then
+      let idf ← match p.val? "--idf" with | some v => parseFloatS v | none => some 0.8
+      return ← (Ali.weightFilterSto a fa ta idf infmt src).map b2s
+    else
+      let maxid ← match p.val? "--id" with | some v => parseFloatS v | none => some 0.62
+      return ← (Ali.weightSto a fa (if p.has "-p" then "-p" else if p.has "-b" then "-b" else "-g") maxid infmt src).map b2s
   if !fmtIs p "--informat" "afa" then none
   let a ← abcOf p
   let nalg := (if p.has "-g" then 1 else 0) + (if p.has "-p" then 1 else 0) + (if p.has "-b" then 1 else 0) + (if p.has "-f" then 1 else 0)
@@ -433,6 +486,10 @@ def runEasel (argv : List String) (files : String → Option (List Char)) : Opti
     let a ← abcOf p
     let [fn] := p.pos | none
     let f ← files fn
+    if (f.dropWhile fun c => c == '\n' || c == ' ').head? == some '#' then
+      -- a Stockholm / Pfam file (format guessed by the tool): every alignment of it
+      let V := match a with | .dna => Ali.viewsDna | .rna => Ali.viewsRna | .amino => Ali.viewsAmino
+      return ← Ali.easelAlistatSto V (p.has "-1") fn (c2b f)
     let recs := parseFasta f
     if !alignedOk a recs || !namesDistinct recs then none
     if p.has "-1" then
@@ -694,6 +751,13 @@ def runAlistatFull (argv : List String) (files : String → Option (List Char)) 
   let (out, written) ← Ali.alistatInfo V o infmt fn (c2b (← files fn))
   some (out, written.map fun (f, t) => (f, t.toList))
 
+/-- esl-compstruct --quiet [-m] [-p] <trusted.sto> <test.sto>  (without --quiet the banner carries the version and date of the build) -/
+def runCompstruct (argv : List String) (files : String → Option (List Char)) : Option String := do
+  let p ← parseArgs ["-m", "-p", "--quiet"] [] argv {}
+  if !p.has "--quiet" then none
+  let [kf, tf] := p.pos | none
+  Ali.compstruct (p.has "-m") (p.has "-p") (c2b (← files kf)) (c2b (← files tf))
+
 def runSfetch (argv : List String) (files : String → Option (List Char)) : Option String :=
   (runSfetchFull argv files).map (·.1)
 
@@ -712,6 +776,7 @@ def runToolCore (tool : String) (argv : List String) (files : String → Option 
   | "esl-alistat" => runAlistat argv files
   | "esl-weight" => runWeight argv files
   | "esl-alimanip" => runAlimanip argv files
+  | "esl-compstruct" => runCompstruct argv files
   | "easel" => runEasel argv files
   | _ => none
 
